@@ -69,6 +69,11 @@ type c04Case struct {
 	Recs     []c04Rec   `json:"recs"`
 	Queries  []c04Query `json:"queries"`
 	Strategy string     `json:"strategy"` // identity | adjacent | squash | compress:<n>
+	// QStrategy is the bam.Index.MergeStrategy field at query time (bai only; "" = nil = Adjacent)
+	QStrategy string `json:"query_strategy,omitempty"`
+	// Split > 0: after that many records the index is written once (WriteIndex/WriteTo sorts it in place
+	// and marks it sorted) before the remaining records are added: a "second use" history
+	Split int `json:"split,omitempty"`
 	Sorted   bool       `json:"sorted"`   // generated as SortedInput (oracle for Add applies)
 }
 
@@ -128,6 +133,7 @@ type c04Impl interface {
 // --- BAI through bam.Index and sam.Record
 
 type baiImpl struct {
+	qs   index.MergeStrategy
 	idx  *bam.Index
 	refs []*sam.Reference
 	free *sam.Reference // not owned by a header: id -1
@@ -223,7 +229,8 @@ func (b *baiImpl) reread(bs []byte) (c04Impl, error) {
 	if err != nil || idx == nil {
 		return nil, err
 	}
-	return &baiImpl{idx: idx, refs: b.refs, free: b.free}, nil
+	idx.MergeStrategy = b.qs
+	return &baiImpl{qs: b.qs, idx: idx, refs: b.refs, free: b.free}, nil
 }
 func (b *baiImpl) numRefs() int { return b.idx.NumRefs() }
 func (b *baiImpl) refStats(id int) (index.ReferenceStats, bool) {
@@ -331,7 +338,12 @@ func (t *tbxImpl) unmapped() (uint64, bool)                     { return t.idx.U
 func newImpl(cs *c04Case) c04Impl {
 	switch cs.Kind {
 	case "bai":
-		return newBai()
+		b := newBai()
+		if cs.QStrategy != "" {
+			b.qs = c04Strategy(cs.QStrategy)
+			b.idx.MergeStrategy = b.qs
+		}
+		return b
 	case "csi":
 		return newCsi(cs)
 	}
@@ -386,6 +398,9 @@ func (cs *c04Case) cfgText() string {
 		}
 		return fmt.Sprintf("%d,%d,%d,%d,%d,%d,%d,%s", cs.Format, z, cs.NameCol, cs.BegCol, cs.EndCol, cs.Meta, cs.Skip, strings.Join(ns, "/"))
 	}
+	if cs.QStrategy != "" {
+		return cs.QStrategy
+	}
 	return "-"
 }
 
@@ -409,6 +424,9 @@ func (cs *c04Case) recsText() string {
 			f |= 4
 		}
 		fmt.Fprintf(&sb, "%d,%d,%d,%d,%d,%d", r.Rid, r.Start, r.End, f, r.CB, r.CE)
+		if cs.Split > 0 && i+1 == cs.Split && i+1 < len(cs.Recs) {
+			sb.WriteString(";S")
+		}
 	}
 	return sb.String()
 }
@@ -612,6 +630,9 @@ func (cs *c04Case) build(r *Result, judgeAdd bool) *c04Run {
 		}
 		run.codes = append(run.codes, addCode(err))
 		run.accepted[i] = err == nil
+		if cs.Split > 0 && i+1 == cs.Split && i+1 < len(cs.Recs) {
+			guard(func() { run.im.write() }) // sorts in place and marks the index sorted
+		}
 		if err != nil && judgeAdd && cs.Sorted {
 			one := *cs
 			one.Recs = cs.Recs[:i+1]
@@ -676,6 +697,9 @@ func c04Shrink(cs *c04Case, phase, sig string) *c04Case {
 		for i := 0; i < len(cur.Recs) && len(cur.Recs) > 1; i++ {
 			t := cur
 			t.Recs = append(append([]c04Rec{}, cur.Recs[:i]...), cur.Recs[i+1:]...)
+			if i < t.Split {
+				t.Split--
+			}
 			if fails(&t) {
 				cur = t
 				i--
@@ -740,6 +764,12 @@ func (cs *c04Case) runCase(c *ctx, d *Driver, impl *[]string) {
 	r.hist(fmt.Sprintf("case.%s.recs%s", cs.Kind, sizeClass(len(cs.Recs))))
 	for _, code := range run.codes {
 		r.hist(fmt.Sprintf("add.%s.%c", cs.Kind, code))
+	}
+	if cs.Split > 0 {
+		r.hist("case." + cs.Kind + ".second-use")
+	}
+	if cs.QStrategy != "" {
+		r.hist("bai.query-strategy." + strings.SplitN(cs.QStrategy, ":", 2)[0] + "+merge." + strings.SplitN(cs.Strategy, ":", 2)[0])
 	}
 	for _, rec := range cs.Recs {
 		if rec.Placed && rec.End == rec.Start {
@@ -981,7 +1011,7 @@ func (g *c04Gen) sortedCase(kind string, thorough bool) *c04Case {
 	ms, depth := 14, 5
 	switch kind {
 	case "csi":
-		geoms := [][2]int{{14, 5}, {14, 5}, {0, 0}, {14, 6}, {12, 3}, {4, 2}, {1, 1}, {3, 4}, {16, 4}, {2, 8}, {10, 1}, {5, 7}}
+		geoms := [][2]int{{14, 5}, {14, 5}, {0, 0}, {14, 6}, {12, 3}, {4, 2}, {1, 1}, {3, 4}, {16, 4}, {2, 8}, {10, 1}, {5, 7}, {2, 10}, {14, 10}}
 		gm := geoms[rnd.intn(len(geoms))]
 		cs.MinShift, cs.Depth = gm[0], gm[1]
 		ms, depth = gm[0], gm[1]
@@ -1095,6 +1125,12 @@ func (g *c04Gen) sortedCase(kind string, thorough bool) *c04Case {
 	}
 	g.layout(cs.Recs)
 	cs.normalise()
+	if kind == "bai" && rnd.coin(1, 2) {
+		cs.QStrategy = g.strategy() // every pair (MergeChunks strategy, query-time MergeStrategy) is drawn
+	}
+	if len(cs.Recs) > 1 && rnd.coin(1, 5) {
+		cs.Split = rnd.rng(1, len(cs.Recs)-1)
+	}
 	g.queries(cs, ms, depth, max, region, thorough)
 	return cs
 }
@@ -1152,6 +1188,10 @@ func (g *c04Gen) queries(cs *c04Case, ms, depth, max, region int, thorough bool)
 		}
 		if e > max+2 {
 			e = max + 2
+		}
+		if depth >= 9 && (e-b)>>uint(ms) > 4096 {
+			// reg2bins lists every finest bin under the query: 8^10 of them for a whole depth-10 reference
+			e = b + 4096<<uint(ms)
 		}
 		if e < 1 {
 			// end <= 0 is not a query interval, and csi.reg2bins(0,0) does not terminate
@@ -1579,7 +1619,16 @@ func c04Corpus() []*c04Case {
 		}
 		return cs
 	}
+	nested := mk("bai", [][3]int{{0, 100, 40000}, {0, 20000, 20100}, {0, 30000, 70000}}, []c04Query{{0, 20050, 35000}, {0, 30000, 30001}})
+	nested.Strategy, nested.QStrategy = "squash", "squash" // seeded C04-7: nested chunk lists at query time
+	nested2 := mk("bai", [][3]int{{0, 100, 40000}, {0, 20000, 20100}, {0, 30000, 70000}}, []c04Query{{0, 20050, 35000}})
+	nested2.Strategy, nested2.QStrategy = "compress:1073741824", "squash"
+	gap := mk("bai", [][3]int{{0, 2*16384 + 10, 4*16384 - 10}, {0, 5*16384 + 10, 7*16384 - 10}}, []c04Query{{0, 4 * 16384, 4*16384 + 100}, {0, 5*16384 + 20, 5*16384 + 30}})
+	gap.Split = 1 // fixes/C15-3: Add after WriteIndex into an existing bin, leaving an empty tile
+	gapT := mk("tbx", [][3]int{{0, 2*16384 + 10, 4*16384 - 10}, {0, 5*16384 + 10, 7*16384 - 10}}, []c04Query{{0, 4 * 16384, 4*16384 + 100}})
+	gapT.Split = 1
 	return []*c04Case{
+		nested, nested2, gap, gapT,
 		// #4: second record ends in the tile after the last recorded one and starts before it
 		mk("bai", [][3]int{{0, 100, 200}, {0, 16000, 16500}}, []c04Query{{0, 16400, 16450}, {0, 100, 150}}),
 		// #4: last tile of a spanning record never recorded
